@@ -94,7 +94,12 @@ class ModuleInfo:
         self.tree = ast.parse(self.src, filename=path)
         if not os.environ.get("VERIF_NO_NORMALISE"):
             from .normalise import normalise
-            normalise(self.tree)
+            known = None
+            if not os.environ.get("VERIF_NO_CANON"):
+                from .canon_names import load_ref
+                fl = load_ref().get("__functions__", {}).get(name)
+                known = frozenset(fl) if fl is not None else None
+            normalise(self.tree, known)
         self.lines = self.src.splitlines()
         self.funcs = {}       # qual -> [FuncInfo,...] (several under if/else)
         self.classes = {}     # name -> ClassDef
